@@ -120,7 +120,7 @@ Definition cfg_src (ngc : bool) : cfg :=
 Definition hdr_rules_ok : bool :=
   hdr_dollar_via_alloc_stack && hdr_static_type_null && hdr_typeof_null_is_type &&
   hdr_dealloc_check_first && hdr_dealloc_custom_first && hdr_del_by_gc &&
-  hdr_alloc_custom_first && hdr_copy_default_allocs && hdr_sweep_rule && hdr_rem_releases &&
+  hdr_alloc_custom_first && hdr_copy_default_allocs && hdr_sweep_rule && hdr_rem_releases && hdr_rem_deferred_when_stopped &&
   hdr_tuple_rem_via_pop_at &&
   Nat.eqb hdr_sites_count 9 &&      (* every header_init call site is one of the producers below *)
   Nat.eqb hdr_guards_count 14.      (* every function that frees/reallocates a String/Tuple buffer is a gfn (+ unused String_Clear) *)
@@ -268,7 +268,8 @@ Inductive op :=
   | OpDestruct
   | OpAssign | OpResize | OpConcat | OpAppend | OpPrintTo      (* String and Tuple *)
   | OpPush | OpPop | OpPushAt | OpPopAt | OpRem                (* Tuple *)
-  | OpSweep.                                                   (* a collection that finds the object unmarked *)
+  | OpSweep                                                    (* a collection that finds the object unmarked *)
+  | OpDelStopped.                                              (* stop(current(GC)); del(x); start(current(GC)) *)
 
 Definition guard_refuses (c : cfg) (fn : gfn) (code : nat) : bool :=
   existsb (Nat.eqb code) (c_guards c fn).
@@ -392,6 +393,9 @@ Definition m_op (c : cfg) (p : op) (o : obj) : step :=
   | OpDealloc | OpDeallocRaw | OpDeallocRoot => m_dealloc c o
   | OpDestruct => m_destruct c o
   | OpSweep => m_sweep c o
+  (* del_by still goes through rem(current(GC), x); GC_Rem returns at once while the collector is stopped:
+     nothing happens now, a registered object stays registered (the deletion is deferred to the next sweep) *)
+  | OpDelStopped => if c_ngc c then (o, ONa, []) else (o, OOk, [])
   | _ => m_inplace c p o
   end.
 
@@ -452,6 +456,7 @@ Definition matched_total (c : cfg) (p : producer) (ops : list op) : option nat :
     match p, ops with
     | (PNew | PCopy), OpDel :: r => if sweeps r then Some 1 else None
     | (PNew | PCopy | PAlloc), OpSweep :: r => if sweeps r then Some 1 else None
+    | (PNew | PCopy), OpDelStopped :: OpSweep :: r => if sweeps r then Some 1 else None   (* released once, by the following sweep *)
     | PNewRoot, OpDelRoot :: r => if sweeps r then Some 1 else None
     | (PNewRoot | PAllocRoot), OpSweep :: r => if sweeps r then Some 0 else None
     | (PNewRaw | PRuntimeType), OpDelRaw :: r => if sweeps r then Some 1 else None
